@@ -123,4 +123,44 @@ mod verif_kani_message {
         assert!(b[2] == (v >> 8) as u8 && b[3] == (v & 0xff) as u8);
         assert!(b[0] == old[0] && b[1] == old[1] && b[4] == old[4] && b[5] == old[5]);
     }
+
+    // shim cross-check for vx/shims/slices.rs: sub-slice copy / fill / big-endian writes through `&mut [u8]`
+    #[kani::proof]
+    #[kani::unwind(14)]
+    fn k_shim_slices() {
+        let old: [u8; 12] = kani::any();
+        let a: usize = kani::any();
+        let b: usize = kani::any();
+        kani::assume(a <= b && b <= 12);
+        // X[a..b].fill(v)
+        let v: u8 = kani::any();
+        let mut d = old;
+        d[a..b].fill(v);
+        let mut i = 0;
+        while i < 12 { assert!(d[i] == if i >= a && i < b { v } else { old[i] }); i += 1; }
+        // X[a..b].copy_from_slice(src) with |src| == b - a
+        let src: [u8; 12] = kani::any();
+        let mut d = old;
+        d[a..b].copy_from_slice(&src[..b - a]);
+        let mut i = 0;
+        while i < 12 { assert!(d[i] == if i >= a && i < b { src[i - a] } else { old[i] }); i += 1; }
+        // BigEndian::write_u32 / write_u64 into a sub-slice write the first 4 / 8 bytes only
+        let n: u32 = kani::any();
+        let m: u64 = kani::any();
+        if b - a >= 4 {
+            let mut d = old;
+            BigEndian::write_u32(&mut d[a..b], n);
+            assert!(d[a] == (n >> 24) as u8 && d[a + 1] == (n >> 16) as u8 && d[a + 2] == (n >> 8) as u8 && d[a + 3] == n as u8);
+            let mut i = 0;
+            while i < 12 { if i < a || i >= a + 4 { assert!(d[i] == old[i]); } i += 1; }
+        }
+        if b - a >= 8 {
+            let mut d = old;
+            BigEndian::write_u64(&mut d[a..b], m);
+            let mut i = 0;
+            while i < 8 { assert!(d[a + i] == (m >> (56 - 8 * i)) as u8); i += 1; }
+            let mut i = 0;
+            while i < 12 { if i < a || i >= a + 8 { assert!(d[i] == old[i]); } i += 1; }
+        }
+    }
 }
